@@ -33,8 +33,9 @@ def real_fmt(rng, single):
     """returns (descriptor text, k, w, formatter(value)->field text)"""
     kind = rng.choice(['E', 'E', 'D', 'F', 'PE', 'PD'])
     d = rng.choice([3, 5, 6, 8] if single else [5, 8, 11, 14, 16])
+    tight = rng.random() < 0.25      # fields that fill their whole width (legal Fortran output of non-negative data): no blank between values
     if kind in ('E', 'D', 'PE', 'PD'):
-        w = d + rng.choice([8, 9, 10])
+        w = d + (6 if kind in ('E', 'D') else 7) if tight else d + rng.choice([8, 9, 10])
         k = rng.choice([kk for kk in (1, 2, 3, 4, 5, 6) if kk * w <= 80])
         ech = 'D' if 'D' in kind else 'E'
         onep = kind.startswith('P')
@@ -54,11 +55,15 @@ def real_fmt(rng, single):
                 out = mant + ech + ('%+03d' % ex)
             return out.rjust(w)
         desc = '(%s%d%s%d.%d)' % ('1P' if onep else '', k, ech, w, d)
+        if tight:
+            f0 = f
+            f = lambda v: f0(abs(v))
         return desc, k, w, f
     else:
-        w = d + rng.choice([6, 8])
+        w = d + (4 if tight else rng.choice([6, 8]))      # tight: ddd.dddd of a value < 1000 fills the field
         k = rng.choice([kk for kk in (1, 2, 3, 4, 5) if kk * w <= 80])
         def f(v):
+            if tight: v = 100.0 + abs(v) % 900.0
             return ('%.*f' % (d, v)).rjust(w)
         return '(%dF%d.%d)' % (k, w, d), k, w, f
 
